@@ -45,7 +45,7 @@ func (s *Solver) start(timeoutMs int) error {
 	case "z3new":
 		c = exec.Command("z3-new", "-in", "-smt2")
 	case "cvc5":
-		c = exec.Command("cvc5", "--incremental", "--lang=smt2", "--produce-models", fmt.Sprintf("--tlimit-per=%d", timeoutMs))
+		c = exec.Command("cvc5", "--incremental", "--lang=smt2", "--produce-models", "--tlimit-per=1200000")
 	default:
 		return fmt.Errorf("unknown backend %s", s.Backend)
 	}
@@ -145,7 +145,11 @@ func (s *Solver) Check(sc *Script, timeoutMs int) Answer {
 		s.Close()
 		return Answer{Res: Unknown, Err: "write: " + err.Error()}
 	}
-	lines, ok := s.readUntil("@@END", time.Duration(timeoutMs+5000)*time.Millisecond)
+	grace := 5000
+	if s.Backend == "cvc5" {
+		grace = 0
+	}
+	lines, ok := s.readUntil("@@END", time.Duration(timeoutMs+grace)*time.Millisecond)
 	ans := Answer{Res: Unknown}
 	if !ok {
 		ans.Err = "solver died or timed out"
